@@ -89,7 +89,7 @@ Proof.
   apply mint_spec in E0. destruct E0 as (Hm0 & b1 & sp1 & -> & Hb1 & Hs1).
   exec1 H.
   destruct (CK _ (get_ep_in _ _ _ M)) as (Hddf & Hio & Hcl).
-  apply deliver_spec in E0; [|lia|exact Hddf]. destruct E0 as (Hfs & b2 & -> & Hb2). ssimpl.
+  apply deliver_spec in E0; [|lia|exact Hddf|lia]. destruct E0 as (Hfs & b2 & -> & Hb2). ssimpl.
   injection H as <-.
   match goal with |- context [upd_mint ?st ?a0 ?p0 ?m ?ad] =>
     destruct (upd_mint_spec st a0 p0 m ad Hpf) as (f' & -> & Hf1 & Hf2 & Hf3 & Hf4) end.
@@ -269,7 +269,7 @@ Proof.
   exec1 H. exec1 H. apply mint_spec in E0. destruct E0 as (_ & b2 & sp2 & -> & Hb2 & Hs2).
   exec1 H.
   destruct (CK _ (get_ep_in _ _ _ M)) as (Hddf & Hio & Hcl).
-  apply deliver_spec in E0; [|lia|exact Hddf]. destruct E0 as (Hfs & b3 & -> & Hb3). ssimpl.
+  apply deliver_spec in E0; [|lia|exact Hddf|lia]. destruct E0 as (Hfs & b3 & -> & Hb3). ssimpl.
   exec_checks H. injection H as <-. bool_norm.
   pose proof (get_ep_id _ _ _ M) as Hid.
   pose proof (denom_in_ep _ _ _ M) as Hdi. pose proof (denom_out_ep _ _ _ M) as Hdo.
@@ -289,6 +289,49 @@ Proof.
   - unfold wfv; bc_simpl. apply fee_share_val in M1. rewrite M1. unfold feeq. pose proof P18_pos.
     unfold int64_c in M0. destruct (_ && _) in M0; [|discriminate]. injection M0 as <-.
     repeat split; try lia. apply Z.quot_pos; nia.
+  - intros a' p'. prod_rw. rewrite andb_true_r. eqb_cases; rewrite ?orb_true_r, ?orb_false_r; reflexivity.
+  - intros a' p'. prod_rw. eqb_cases.
+  - intros a' p'. prod_rw. eqb_cases.
+  - intros a' p'. prod_rw. eqb_cases.
+  - lia.
+  - intros a' x. bal_rw. rewrite Hdi, Hdo. ledger.
+  - intros d. bal_rw. rewrite Hdo. ledger.
+  - repeat split; reflexivity.
+Qed.
+
+Lemma stable_create_effect c s f a e amt s' :
+  cfg_ok c ->
+  msg_stable_create c s f a e amt = Ok s' ->
+  exists ep tout, get_ep c e = Some ep /\ a = ep_app ep /\ ep_stable ep = true /\ 0 < amt /\
+    other_token (ep_dec_in ep) amt (ep_dec_out ep) = Some tout /\ 0 < tout /\
+    pmint s a e + tout < ep_ceiling ep /\
+    ddf_fee ep tout = feeq tout (ep_ddf ep) /\
+    effect c s s' f (SNew (mkSV (sid s + 1) a e amt tout)) (feeq tout (ep_ddf ep)).
+Proof.
+  intros [_ CK] H. unfold msg_stable_create in H. cbv zeta in H.
+  exec_checks H.
+  destruct (ensure_prod_spec s a e) as (f0 & Hens & Hf01 & Hf02 & Hf03 & Hf04).
+  rewrite Hens in *.
+  assert (Hamt : 0 < amt) by lia.
+  assert (G : (amt >? 0) = true) by lia.
+  exec1 H. rewrite G in E.
+  exec1 E. apply send_spec in E0. destruct E0 as (_ & b1 & -> & Hb1).
+  exec1 E. apply mint_spec in E. destruct E as (Hz0 & b2 & sp2 & -> & Hb2 & Hs2).
+  exec1 H.
+  destruct (CK _ (get_ep_in _ _ _ M)) as (Hddf & Hio & Hcl).
+  assert (Hz : 0 < z) by lia.
+  apply deliver_spec in E; [|lia|exact Hddf|exact G]. destruct E as (Hfs & b3 & -> & Hb3). ssimpl.
+  injection H as <-. bool_norm.
+  pose proof (get_ep_id _ _ _ M) as Hid.
+  pose proof (denom_in_ep _ _ _ M) as Hdi. pose proof (denom_out_ep _ _ _ M) as Hdo.
+  match goal with |- context [prod_on_create ?st ?a0 ?p0 ?i ?o ?k] =>
+    destruct (prod_on_create_spec st a0 p0 i o k) as (f1 & -> & Hf11 & Hf12 & Hf13 & Hf14) end.
+  destruct (feeq_bounds z (ep_ddf e0) ltac:(lia) Hddf) as [Hfb _].
+  exists e0, z. repeat (split; [first [reflexivity|congruence|lia]|]).
+  split. { unfold prod_mint in C8. ssimpl. rewrite pmint_f, <- Hf03. unfold fmint. destruct (f0 a e); lia. }
+  split. { apply ddf_fee_val. exact Hfs. }
+  constructor; ssimpl; bc_simpl; try reflexivity.
+  - split; [reflexivity|]. exists e0. split; [exact M|exact C4].
   - intros a' p'. prod_rw. rewrite andb_true_r. eqb_cases; rewrite ?orb_true_r, ?orb_false_r; reflexivity.
   - intros a' p'. prod_rw. eqb_cases.
   - intros a' p'. prod_rw. eqb_cases.
